@@ -193,6 +193,7 @@ int main(int argc, char **argv)
         a_real y = (a_real)((s & 1) ? -ax[i] : ax[i]), x = (a_real)((s & 2) ? -ax[j] : ax[j]);
         if ((y == 0 && (s & 1)) || (x == 0 && (s & 2))) { continue; } /* no negative zeros */
         if (x == 0 && y == 0) { continue; }
+        if (!isfinite((double)x) || !isfinite((double)y)) { continue; } /* not representable in this real width */
         real2("atan2", y, x, a_real_atan2(y, x));
         real2("norm2", y, x, a_real_norm2(y, x));
     }
